@@ -34,6 +34,9 @@ How (same idea as CrossHair, reduced to what these properties need):
   symbolic): module-level ``str`` constants of loaded functions, every all-concrete result of a
   symbolic operation, desugared f-string results.  A plain ``str`` that slips through still
   fails loudly.
+* A ``TypeError`` raised by CPython because a C-level operation was handed a symbolic string is
+  recorded through ``sys.monitoring`` (RAISE events) even if the code under analysis catches it
+  (``redact_url`` has ``except (TypeError, ValueError)``): such a path is Unsupported, never a result.
 * Exhaustiveness: ``Explorer.run`` returns only when the work list is empty (every feasible side
   of every decision was executed), or sets ``timed_out``; ``unknown`` from z3, an unmodelled
   operation or a branch condition that differs on re-execution raise ``Unsupported``.  Callers
